@@ -149,3 +149,10 @@ func (lsm *LSM) VerifLocate(cf kv.ColumnFamily, userKey []byte) []VerifSource {
 	}
 	return out
 }
+
+// VerifAdjustThrottle re-evaluates the L0 write throttle exactly as compaction
+// worker 0 does around its runs (levelManager.AdjustThrottle).
+func (lsm *LSM) VerifAdjustThrottle() { lsm.levels.AdjustThrottle() }
+
+// VerifL0Tables returns the number of tables currently in level 0.
+func (lsm *LSM) VerifL0Tables() int { return lsm.levels.levels[0].numTables() }
